@@ -133,6 +133,7 @@ FieldDefault(f) ==
       [] f.dv = "method"     -> "call:4"             \* #[default(mk(4).same())]     as is
       [] f.dv = "int"        -> "int:5"              \* #[default(5)] on a u8 field: as is (Into would infer i32 and fail)
       [] f.dv = "neg"        -> "int:-3"             \* #[default(-3)] on an i8 field: as is
+      [] f.dv = "bytes"      -> "bytes:[97, 98]"     \* #[default(b"ab")] on a &'static [u8] field: as is (only string literals and paths go through Into)
 
 \* which variant default() constructs; 0 = rejected
 DefaultVariant(P) ==
